@@ -187,9 +187,21 @@ func frameWrite(args []string) error {
 			if err != nil {
 				return err
 			}
-			// what had reached the sink when the fault happened (everything, for a permanent fault)
+			// what had reached the sink when the failure was reported, i.e. when the first public call returned
+			// the injected error (a concurrent Writer reports it later than it happens; whatever is written in
+			// between counts); when no call reported it, what was there when the fault happened.  C15 is silent
+			// about a caller who goes on after the failure was reported to him.
 			upto := b
-			if sink.atFail >= 0 && sink.atFail <= len(b) {
+			reported := -1
+			for _, r := range res {
+				if r.Err == "injected" {
+					reported = r.Sink
+					break
+				}
+			}
+			if reported >= 0 && reported <= len(b) {
+				upto = b[:reported]
+			} else if sink.atFail >= 0 && sink.atFail <= len(b) {
 				upto = b[:sink.atFail]
 			}
 			e["sinkIsPrefix"] = isPrefix(upto, full)
